@@ -252,3 +252,60 @@ Definition proj_ops (c : ks) (tr : list (ks * op)) : list op :=
   map snd (filter (fun co => ks_eqb (fst co) c) tr).
 Definition proj_res (c : ks) (rs : list (ks * res)) : list res :=
   map snd (filter (fun cr => ks_eqb (fst cr) c) rs).
+
+(* ---------- programs of requests with retransmissions and region errors ---------- *)
+(* what happened to one transmission: the store refused it with a region error describing the current regions
+   (memcomparable bounds; no effect), it was executed but the answer was lost, or it was executed and answered *)
+Inductive outcome :=
+| Refused (regs : list (list N * list N))
+| Lost
+| Answered.
+(* what the client learns from one transmission *)
+Inductive obs :=
+| ORegions (r : option (list (list N * list N)))   (* the decoded region descriptions of a region error *)
+| ONothing
+| OResult (r : res).
+
+(* one event: client c transmits request o for the (n+1)-th time *)
+Definition event := (ks * op * nat * outcome)%type.
+
+Definition transmit (ev : event) (st : store) : store * obs :=
+  let '(c, o, n, out) := ev in
+  match out with
+  | Refused regs => (st, ORegions (decode_scan c regs))
+  | Lost => (fst (step (nth_wire false c o n) st), ONothing)
+  | Answered => let '(st', r) := step (nth_wire false c o n) st in (st', OResult (dec_res c r))
+  end.
+Fixpoint trun (tr : list event) (st : store) : list (ks * obs) :=
+  match tr with
+  | [] => []
+  | ev :: t => let '(st', ob) := transmit ev st in (fst (fst (fst ev)), ob) :: trun t st'
+  end.
+Fixpoint trun_store (tr : list event) (st : store) : store :=
+  match tr with
+  | [] => st
+  | ev :: t => trun_store t (fst (transmit ev st))
+  end.
+
+(* the same schedule for an unprefixed client on logical keys; a region error shows it the logical layout *)
+Definition ltransmit (lay : list (list N * list N) -> list (list N * list N)) (e : op * outcome) (st : store) : store * obs :=
+  let '(o, out) := e in
+  match out with
+  | Refused regs => (st, ORegions (Some (lay regs)))
+  | Lost => (fst (step o st), ONothing)
+  | Answered => let '(st', r) := step o st in (st', OResult r)
+  end.
+Fixpoint ltrun lay (tr : list (op * outcome)) (st : store) : list obs :=
+  match tr with
+  | [] => []
+  | e :: t => let '(st', ob) := ltransmit lay e st in ob :: ltrun lay t st'
+  end.
+Fixpoint ltrun_store lay (tr : list (op * outcome)) (st : store) : store :=
+  match tr with
+  | [] => st
+  | e :: t => ltrun_store lay t (fst (ltransmit lay e st))
+  end.
+Definition proj_events (c : ks) (tr : list event) : list (op * outcome) :=
+  map (fun ev => (snd (fst (fst ev)), snd ev)) (filter (fun ev => ks_eqb (fst (fst (fst ev))) c) tr).
+Definition proj_obs (c : ks) (l : list (ks * obs)) : list obs :=
+  map snd (filter (fun x => ks_eqb (fst x) c) l).
